@@ -40,6 +40,10 @@ impl Encoder {
     /// lookup the Abstraction for a given Game. convert
     /// ( Game -> Observation -> Isomorphism ) -> Abstraction
     pub fn abstraction(&self, game: &Game) -> Abstraction {
+        #[cfg(robopoker_verif)]
+        if self.0.is_empty() {
+            return Self::verif_standin(game);
+        }
         self.0
             .get(&Isomorphism::from(game.sweat()))
             .cloned()
@@ -131,5 +135,23 @@ impl crate::save::upload::Table for Encoder {
     }
     fn grow(_: Street) -> Self {
         unimplemented!("you have no business making an encoding from scratch, learn from kmeans")
+    }
+}
+
+/// verification hook: a fixed, street-correct stand-in abstraction
+/// (a function of the isomorphism class only) used when no lookup
+/// table has been loaded
+#[cfg(robopoker_verif)]
+impl Encoder {
+    pub fn verif_standin(game: &Game) -> Abstraction {
+        let iso = Isomorphism::from(game.sweat());
+        let street = iso.0.street();
+        let code = i64::from(iso) as u64;
+        let hash = code.wrapping_mul(0x9E3779B97F4A7C15) >> 32;
+        let n = match street {
+            Street::Rive => Abstraction::size(),
+            s => s.k(),
+        };
+        Abstraction::from((street, hash as usize % n))
     }
 }
